@@ -104,6 +104,9 @@ class Shadow:
 
 NAMES_ASCII = ["a", "A", "b", "Bb", "LongFileName-xyz.txt", "longfilename-XYZ.TXT", "file.txt", "x y.z"]
 NAMES_UNI = ["été", "ÉTÉ", "straße", "STRASSE", "ǆ.t", "жук"]
+# lengths at the edges of the long-name encoding: the longest legal name (255 units, 20 slots) in two spellings of one fold class, one unit
+# less, exactly 13 and 26 units (no terminator in the last slot)
+NAMES_EDGE = ["M" * 251 + ".dat", "m" * 251 + ".DAT", "n" * 254, "thirteen.char", "twenty-six characters.name"]
 
 
 def rand_path(rng, sh, names, depth_bias=0.5):
@@ -1217,7 +1220,16 @@ def foreign_program(rng, pid, vol, cs, oem, n_ops=12):
             ops.append({"op": "rename", "at": "", "src": f, "to": "", "dst": g})
             files.remove(f)
             files.append(g)
-        elif r < 0.9 and dirs:
+        elif r < 0.86 and dirs and not open_h:
+            # a directory moves (into the root or into another directory that is not inside it)
+            d = rng.choice(dirs)
+            tgt = [x for x in [""] + [y + "/" for y in dirs] if not (x + "/").startswith(d + "/") and x != d + "/"]
+            g = rng.choice(tgt) + "mvdir%d" % n
+            ops.append({"op": "rename", "at": "", "src": d, "to": "", "dst": g})
+            ops.append({"op": "list", "at": "", "path": g})
+            files = [g + x[len(d):] if (x + "/").startswith(d + "/") else x for x in files]
+            dirs = [g + x[len(d):] if (x + "/").startswith(d + "/") else x for x in dirs]
+        elif r < 0.92 and dirs:
             ops.append({"op": "list", "at": "", "path": rng.choice(dirs)})
         else:
             ops.append({"op": "stats"})
@@ -1226,6 +1238,54 @@ def foreign_program(rng, pid, vol, cs, oem, n_ops=12):
     ops.append({"op": "stats"})
     ops.append({"op": "unmount"})
     return {"id": pid, "cfg": cfg, "ops": ops, "origin": "foreign"}
+
+
+def foreign_high_program(rng, pid):
+    """a FAT32 volume whose whole tree lives in clusters numbered 65536 and above (both halves of every first-cluster field in use):
+    files are emptied, shortened and rewritten, directories and files move into the root and between directories"""
+    vol, cs, oem = foreign_volume(rng, 32)
+    vol.update({"n": rng.choice([70000, 66500, 131100]), "alloc": "desc", "bps": 512, "spc": 1, "slack_sectors": 0, "bad": []})
+    cs = 512
+
+    def f(name, sfn, size):
+        e = {"kind": "f", "name": name, "sfn": sfn, "size": size, "pat": rng.randrange(1, 1000), "attr": 0x20}
+        e.update(_stamps(rng))
+        return e
+
+    def d(name, sfn, children):
+        e = {"kind": "d", "name": name, "sfn": sfn, "children": children, "attr": 0x10}
+        e.update(_stamps(rng))
+        return e
+    vol["tree"] = foreign_tree(rng, cs, 0, rng.randrange(2, 5), oem_high=False) + [
+        d("High Dir A", "HIGHDI~1   ", [d("Inner Dir", "INNERD~1   ", [f("deep file.bin", "DEEPFI~1BIN", cs + 7)]), f("in a.txt", "INA~1   TXT", 3 * cs)]),
+        d("High Dir B", "HIGHDI~2   ", [f("in b.txt", "INB~1   TXT", 1)]),
+        f("top one.dat", "TOPONE~1DAT", 2 * cs + 1), f("top two.dat", "TOPTWO~1DAT", cs)]
+    known = _names_of(vol["tree"])
+    files = [p for p, k in known if k == "f"]
+    ops = [{"op": "stats"}, {"op": "list", "at": "", "path": ""}]
+    n = 0
+    for fl in files:
+        n += 1
+        a = rng.random()
+        if a < 0.7:
+            h = "h%d" % n
+            ops.append({"op": "open_file", "at": "", "path": fl, "as": h})
+            ops.append({"op": "seek", "h": h, "from": "start", "off": rng.choice([0, 0, 0, 0, 1, cs])})
+            ops.append({"op": "truncate", "h": h})
+            if rng.random() < 0.3:
+                ops.append({"op": "write_all", "h": h, "pat": n, "len": rng.choice([1, cs + 1])})
+            ops.append({"op": "close", "h": h})
+    moves = [("High Dir A/Inner Dir", "inner at top"), ("High Dir B", "High Dir A/b below a"), ("High Dir A/b below a", "b back"),
+             ("High Dir A/in a.txt", "a file at top.txt"), ("High Dir A", "b back/a below b"), ("b back/a below b", "a back")]
+    for src, dst in moves[:rng.randrange(3, 7)]:
+        ops.append({"op": "rename", "at": "", "src": src, "to": "", "dst": dst})
+        ops.append({"op": "list", "at": "", "path": dst if "." not in dst else ""})
+    ops.append({"op": "create_dir", "at": "", "path": "fresh"})
+    ops.append({"op": rng.choice(["unmount", "dropfs"])})
+    ops.append({"op": "list", "at": "", "path": ""})
+    ops.append({"op": "stats"})
+    ops.append({"op": "unmount"})
+    return {"id": pid, "cfg": {"vol": vol, "oem": oem}, "ops": ops, "origin": "foreign-high"}
 
 
 def large_volume(kind, hint, rng):
